@@ -71,6 +71,7 @@ func init() {
 			ruleTSNarrow(c)
 			ruleTSFloor(c)
 			ruleTSTotal(c)
+			ruleCDPure(c)
 		})
 
 	register("C20",
@@ -90,5 +91,6 @@ func init() {
 			ruleALBuf(c)
 			ruleRegExact(c)
 			ruleRegAlways(c)
+			ruleOMZero(c)
 		})
 }
